@@ -2,6 +2,7 @@ package main
 
 import (
 	"io"
+	"time"
 
 	"github.com/pkg/sftp"
 )
@@ -64,8 +65,16 @@ func vhStartOS(copts []sftp.ClientOption, sopts ...sftp.ServerOption) (*vhPair, 
 	return p, nil
 }
 
-// Close shuts the client down and waits for the server to return.
+// Close shuts the client down and waits (at most 10 s) for the server to return.
 func (p *vhPair) Close() {
-	p.Client.Close()
-	<-p.done
+	fin := make(chan struct{})
+	go func() {
+		p.Client.Close()
+		<-p.done
+		close(fin)
+	}()
+	select {
+	case <-fin:
+	case <-time.After(10 * time.Second):
+	}
 }
